@@ -40,7 +40,7 @@ def main():
     meta = json.load(open(os.path.join(out, 'meta.json')))
     env = 'CARGO_TARGET_DIR=%s/target ' % wt
     mj = json.dumps(meta).lower()
-    feat = ' --features "transaction acceptor"' if ('transaction' in mj and 'feature' in mj) else ''
+    feat = ' --features "transaction acceptor"' if (('transaction' in mj or 'acceptor' in mj) and 'feature' in mj) else ''
     if 'scram' in mj and 'feature' in mj:
         feat = ' --features "acceptor scram"'
     ran = []
